@@ -458,8 +458,27 @@ func (g *Gen) didTx() Op {
 		return op
 	case 4, 5:
 		op := Op{K: "payaddr", Creator: creator, Sid: sid, Acct: 1 + r.Intn(len(g.W.C.Accounts))}
-		if len(local) > 0 && r.Chance(70) {
+		if len(local) > 0 && r.Chance(60) {
 			op.Acct = local[r.Intn(len(local))]
+		} else if r.Chance(60) {
+			// an account that is bound, but to another sid identity
+			others := []int{}
+			for o := 1; o <= 3; o++ {
+				if o == sid {
+					continue
+				}
+				if al, found := k.GetAccountList(ctx, g.W.SidDid(o, 1)); found {
+					for _, ad := range al.AccountDids {
+						var a int
+						if _, err := fmt.Sscanf(ad, "did:key:acct%d-of-", &a); err == nil && a <= len(g.W.C.Accounts) {
+							others = append(others, a)
+						}
+					}
+				}
+			}
+			if len(others) > 0 {
+				op.Acct = others[r.Intn(len(others))]
+			}
 		}
 		return op
 	case 6, 7:
